@@ -316,6 +316,23 @@ def run_special(arg):
                 if got != (ec, q):
                     viols.append((f"C08:added-element:{'promoted-marker' if 'M' in ec or 'X' in ec else 'new-symbol'}", f"after add_known_elements(['Zz','M','X']): Species({name!r}) has (element_count, charge) = {got}, expected {(ec, q)}", {"config": cfgname, "name": name}))
             Species.reset()
+            # ... and the other direction: a symbol declared a label through add_known_pseudoelements (a new one, and
+            # one demoted from the element list - documented: "move to pseudo element list") no longer counts as atoms
+            Species.set_known_elements(list(Species.default_elements))
+            Species.set_known_pseudoelements(list(Species.default_pseudoelements))
+            Species.add_known_pseudoelements(["Qq", "P", "D"])
+            for name, ec, q, atom in (("PH2", {"H": 2}, 0, False), ("PH", {"H": 1}, 0, True), ("HD", {"H": 1}, 0, True), ("QqCO+", {"C": 1, "O": 1}, 1, False),
+                                      ("H2", {"H": 2}, 0, False), ("pH2", {"H": 2}, 0, False), ("He", {"He": 1}, 0, True)):
+                n += 1
+                try:
+                    sp = Species(name)
+                    got = (dict(sp.element_count), sp.charge, bool(sp.is_atom))
+                except Exception as e:
+                    viols.append((f"C08:added-label:raises", f"after add_known_pseudoelements(['Qq','P','D']): Species({name!r}) raises {e!r}", {"config": cfgname, "name": name}))
+                    continue
+                if got != (ec, q, atom):
+                    viols.append((f"C08:added-label:{'demoted-element' if name in ('PH2', 'PH', 'HD') else 'new-label'}", f"after add_known_pseudoelements(['Qq','P','D']): Species({name!r}) has (element_count, charge, is_atom) = {got}, expected {(ec, q, atom)}", {"config": cfgname, "name": name}))
+            Species.reset()
     return cfgname, n, viols
 
 
